@@ -34,6 +34,10 @@ CONSTANT SimDepth
 (* -simulate: print the behaviour when it reaches SimDepth states *)
 EmitSim == TLCGet("level") # SimDepth \/ PrintT("SCHEDULE " \o ToJson(Schedule))
 
+(* ACTION_CONSTRAINT of the -simulate instances with ConfChange = TRUE: the random walk spends its crash budget only once *)
+(* a conf change is committed somewhere, so that crashes and restarts meet switched configurations                        *)
+CrashAfterConfChange == act'.name = "Crash" => \E i \in Server : \E k \in 1..commit[i] : log[i][k].c # 0
+
 (* weakened instances: print the schedule that breaks safety, then report the violation *)
 EmitAttackM == (Safety /\ MatchSound) \/ (PrintT("ATTACK " \o ToJson(ScheduleNoState)) /\ FALSE)
 EmitAttack == Safety \/ (PrintT("ATTACK " \o ToJson(ScheduleNoState)) /\ FALSE)
